@@ -42,11 +42,11 @@ theorem removeLine_outs_gapfree {c : Circ} {PI PO} {l : Nat} (s : SInv c PI PO) 
   · exact hj
 
 /-! ## the facts carried through the loops -/
-/-- forks that are not images of `node_map` are gap-free; an image that is a fork comes from a gap-free implementation
-node; output lists of images never end in `None` -/
+/-- forks that are not images of `node_map` are gap-free; an image that is a fork comes from an implementation fork or from
+a port for which a fork is made (`isForkImage`); output lists of images never end in `None` -/
 structure FFk (m : Circ) (nm : NMap) (c : Circ) : Prop where
   old : ∀ j ∈ c.nodes, (∀ e ∈ nm, e.2 ≠ j) → (c.nobj j).kind = FORK → none ∉ (c.nobj j).outs
-  gap : ∀ e ∈ nm, (c.nobj e.2).kind = FORK → none ∉ (m.nobj e.1).outs
+  gap : ∀ e ∈ nm, (c.nobj e.2).kind = FORK → isForkImage m e.1 = true
   last : ∀ e ∈ nm, LastSome (c.nobj e.2).outs
 
 /-- `FFk` is preserved by every step that leaves kinds and node list alone and changes output lists only of images, by
@@ -126,8 +126,7 @@ structure FF2 (m : Circ) (des : Option Nat) (c : Circ) (nm : NMap) (rest : List 
   desKey : ∀ dn, des = some dn → ∃ v, (dn, v) ∈ nm
 
 theorem addImplNode_ff2 {PI PO} {m : Circ} {hostName : String} {des : Option Nat} {st st' : Circ × NMap} {n : Nat} {rest : List Nat}
-    (wf : WFc m) (hports : ∀ x ∈ m.io, forkCond m x = true → none ∉ (m.nobj x).outs)
-    (hdes : ∀ dn, des = some dn → inIos m dn = false) (hn : n ∈ m.nodes)
+    (wf : WFc m) (hdes : ∀ dn, des = some dn → inIos m dn = false) (hn : n ∈ m.nodes)
     (ci : CopyInv PI PO st.1 st.2) (inv : NmInv m des st.1 st.2 (n :: rest)) (f : FF2 m des st.1 st.2 (n :: rest))
     (h : addImplNode m hostName des st n = some st') : FF2 m des st'.1 st'.2 rest := by
   have wf0 := wf.toWFc0
@@ -172,11 +171,12 @@ theorem addImplNode_ff2 {PI PO} {m : Circ} {hostName : String} {des : Option Nat
       · rw [hold _ (hvne e h1)] at hk; exact f.k.gap e h1 hk
       · simp only [List.mem_singleton] at h1; subst h1
         simp only [hnew] at hk
+        unfold isForkImage
         by_cases hio : inIos m n = true
-        · exact hports n ((inIos_iff wf0 hn).1 hio) (hc1 hio).1
+        · simp only [hio, if_true]; exact (hc1 hio).1
         · have := (hc2 (by simpa using hio)).1
           rw [this] at hk
-          exact wf.forkFull n hn hk
+          simp [hio, hk]
     · intro e he
       rcases List.mem_append.1 he with h1 | h1
       · rw [hold _ (hvne e h1)]; exact f.k.last e h1
@@ -383,15 +383,23 @@ theorem connectOut_ff5 {m : Circ} {nm : NMap} {all : List Nat} {st st' : Circ ×
           · exact old
 
 /-! ## the fork outputs of the result -/
-theorem ffull_final {m : Circ} {nm : NMap} {all : List Nat} {c5 : Circ} (wf : WFc m) (ok : NmOK m nm) (keysC : KeysC m nm [])
+theorem ffull_final {m : Circ} {nm : NMap} {all : List Nat} {allp : List (Nat × Option Nat)} {c5 : Circ} (wf : WFc m) (ok : NmOK m nm) (keysC : KeysC m nm [])
     (hone : ∀ O ∈ m.io, (m.nobj O).ins.length ≤ 1) (hall : ∀ l, OutLine m l → l ∈ all)
-    (inv5 : Inv5 m nm (c5, []) []) (f : FFk m nm c5) (d3 : Done3 m nm c5 []) (d5 : Done5 m nm all c5 []) : FFull c5 := by
+    (hports : ∀ x ∈ m.io, forkCond m x = true → none ∉ (m.nobj x).outs)
+    (inv5 : Inv5 m nm allp (c5, []) []) (f : FFk m nm c5) (d3 : Done3 m nm c5 []) (d5 : Done5 m nm all c5 []) : FFull c5 := by
   have wf0 := wf.toWFc0
   intro j hj hk
   by_cases himg : ∃ e ∈ nm, e.2 = j
   · obtain ⟨e, he, rfl⟩ := himg
     have hn : e.1 ∈ m.nodes := ok.keysIn e he
-    have gap := f.gap e he hk
+    have gap : none ∉ (m.nobj e.1).outs := by
+      have hfi := f.gap e he hk
+      unfold isForkImage at hfi
+      by_cases hio : inIos m e.1 = true
+      · simp only [hio, if_true] at hfi
+        exact hports e.1 ((inIos_iff wf0 hn).1 hio) hfi
+      · simp only [hio] at hfi
+        exact wf.forkFull e.1 hn (by simpa using hfi)
     have hee : (e.1, e.2) ∈ nm := he
     -- every pin below the number of outputs of the implementation node is occupied
     have cover : ∀ p, p < (m.nobj e.1).outs.length → pin (c5.nobj e.2).outs p ≠ none := by
@@ -431,7 +439,7 @@ theorem ffull_final {m : Circ} {nm : NMap} {all : List Nat} {c5 : Circ} (wf : WF
     | some y =>
       -- an occupied pin is below the number of outputs of the implementation node, or is exactly that number
       have bound : q ≤ (m.nobj e.1).outs.length := by
-        rcases inv5.outs e he q y hqy with ⟨l', hl', h1, h2, _⟩ | ⟨l2, hol2, _, ht2⟩
+        rcases inv5.outs e he q y hqy with ⟨l', hl', h1, h2, _⟩ | ⟨l2, _, _, hol2, _, ht2⟩
         · have := outs_lt_of_driver wf0 hl' h1; omega
         · obtain ⟨hlm2, O2, _, _, _, hcase2⟩ := outTarget_spec wf0 ok hol2 ht2
           rcases hcase2 with ⟨_, hDm2, hdp2⟩ | ⟨_, d2, hd2, hDm2, hdp2⟩
@@ -512,7 +520,7 @@ theorem substituteObj_ffull {c c' : Circ} {i : Nat} {m : Circ} (wfc : WFc c) (hs
                 have hnd := List.nodup_cons.1 a5
                 have han := a4 a (by simp)
                 exact ⟨addImplNode_inv a1 hf, addImplNode_nm wf hdes han hnd.1 a2 hf, by rw [addImplNode_nextL hf]; exact a3,
-                  fun x hx => a4 x (by simp [hx]), hnd.2, addImplNode_ff2 wfm hports' hdes han a1 a2 a6 hf⟩)
+                  fun x hx => a4 x (by simp [hx]), hnd.2, addImplNode_ff2 wfm hdes han a1 a2 a6 hf⟩)
               m.nodes _ _ ⟨phase1_inv wfc0 hi hk hs, phase1_nm wfc0 hi wf hs hdes _, phase1_nextL c i m sh.des, fun x hx => hx,
                 wf.nodes_nodup, phase1_ff2 wfc hi k2⟩ h2
             obtain ⟨i2, nmi, hnl2, _, _, ff2⟩ := n2
@@ -587,9 +595,10 @@ theorem substituteObj_ffull {c c' : Circ} {i : Nat} {m : Circ} (wfc : WFc c) (hs
             have hfst : (sh.outLines.zip (padTo (c.nobj i).outs sh.outLines.length)).map (·.1) = sh.outLines := by
               rw [hpad]
               exact List.map_fst_zip (by omega)
-            have inv5_0 : Inv5 m nm (c4, []) (sh.outLines.zip (padTo (c.nobj i).outs sh.outLines.length)) := by
+            have inv5_0 : Inv5 m nm (sh.outLines.zip (padTo (c.nobj i).outs sh.outLines.length)) (c4, [])
+                (sh.outLines.zip (padTo (c.nobj i).outs sh.outLines.length)) := by
               refine ⟨⟨inv4.ci.s.congr_pred (fun _ => Iff.rfl) (fun l => zip_padTo_pend har'.2 l), inv4.ci.nm,
-                fun n hn => by simp at hn⟩, zip_padTo_pendNodup har'.2 hinjO, zip_map_fst_nodup houtN, ?_, ?_⟩
+                fun n hn => by simp at hn⟩, zip_padTo_pendNodup har'.2 hinjO, zip_map_fst_nodup houtN, ?_, fun _ h => h, ?_⟩
               · intro pr hpr
                 have := mem_zip_fst hpr
                 rw [hsp2] at this
@@ -601,7 +610,7 @@ theorem substituteObj_ffull {c c' : Circ} {i : Nat} {m : Circ} (wfc : WFc c) (hs
                 obtain ⟨_, l', h1, h3'⟩ := inv4.outs e he p y hp
                 exact Or.inl ⟨l', h1, h3'⟩
             have n5 := foldO_inv (connectOut m nm)
-              (fun st rest => Inv5 m nm st rest ∧ FFk m nm st.1 ∧ Done3 m nm st.1 [] ∧ Done5 m nm sh.outLines st.1 rest ∧ st.2 = [] ∧
+              (fun st rest => Inv5 m nm (sh.outLines.zip (padTo (c.nobj i).outs sh.outLines.length)) st rest ∧ FFk m nm st.1 ∧ Done3 m nm st.1 [] ∧ Done5 m nm sh.outLines st.1 rest ∧ st.2 = [] ∧
                 (∀ pr ∈ rest, pr.2.isSome = true))
               (fun s a rest s' hinv hf => by
                 obtain ⟨a1, a2, a3, a4, a5, a6⟩ := hinv
@@ -615,7 +624,7 @@ theorem substituteObj_ffull {c c' : Circ} {i : Nat} {m : Circ} (wfc : WFc c) (hs
             subst hdang
             simp only [foldO, Option.some.injEq] at h
             subst h
-            refine ffull_final wfm ok ff2.keysC hone ?_ inv5 ff5 d35 d5
+            refine ffull_final wfm ok ff2.keysC hone ?_ hports' inv5 ff5 d35 d5
             rintro l ⟨O, hO, hOl, hOp⟩
             rw [hsp2]
             simp only [List.mem_filterMap, List.mem_map, List.mem_filter, id]
@@ -647,39 +656,5 @@ theorem substPre_of_static {c : Circ} {i : Nat} {m : Circ} (wfc : WFc c) (hst : 
   cases h : substituteObj c i m with
   | none => rfl
   | some c' => exact ffull_forksFull (substituteObj_ffull wfc hst hreg h)
-
-theorem foldG_mono {σ α : Type} (f : σ → α → Option σ) (g g' : σ → α → Bool) (Inv : σ → Prop)
-    (himp : ∀ s a, Inv s → g s a = true → g' s a = true) (step : ∀ s a s', Inv s → g s a = true → f s a = some s' → Inv s') :
-    ∀ (as : List α) (s : σ), Inv s → foldG f g s as = true → foldG f g' s as = true := by
-  intro as
-  induction as with
-  | nil => intro _ _ _; rfl
-  | cons a rest ih =>
-    intro s hs h
-    simp only [foldG, Bool.and_eq_true] at h ⊢
-    refine ⟨himp s a hs h.1, ?_⟩
-    cases hf : f s a with
-    | none => rfl
-    | some s1 =>
-      simp only [hf] at h
-      exact ih s1 (step s a s1 hs h.1 hf) h.2
-
-theorem resolvePre_of_static {lib : Lib} {c : Circ} (wf : WFc c) (h : resolveStatic lib c = true) : resolvePre lib c = true := by
-  unfold resolveStatic at h
-  unfold resolvePre
-  refine foldG_mono (resolveStep lib) _ _ (fun cc => WFc cc) ?_ ?_ c.nodes c wf h
-  · intro s a hs hg
-    cases hl : lib.find (s.nobj a).kind with
-    | none => rfl
-    | some mm =>
-      simp only [hl, Bool.and_eq_true] at hg ⊢
-      exact substPre_of_static hs hg.1 hg.2
-  · intro s a s' hs hg hf
-    unfold resolveStep at hf
-    cases hl : lib.find (s.nobj a).kind with
-    | none => simp only [hl, Option.some.injEq] at hf; exact hf ▸ hs
-    | some mm =>
-      simp only [hl, Bool.and_eq_true] at hf hg
-      exact substituteObj_wf_static hs hg.1 hg.2 hf
 
 end KV.CircObj
